@@ -76,6 +76,21 @@ def cond_specs(tier):
         if not ("key" in k and "index" in k):
             out.append(spec_of(t))
     out.append({"and": [{"or": [{"value.lt": 1}, {"and": [{"value.in": [1, {"path": ["a"]}]}, {}]}]}, {"value.dtype.in": ["int", "STR"]}]})
+    # a not-a-number argument (YAML `.nan`): the one value that does not equal itself
+    nan = float("nan")
+    out += [{"value.equal_to": nan}, {"value.in_range": [nan, 2.5]}, {"value.in": [1, nan]}, {"key.equal_to": nan},
+            {"value.equal_to_approx": {"value": nan, "tolerance": 0.5}}]
+    # nested combinations, the shapes to_json_like writes for (a op b) op c, a op (b op c), (a op b) op (c op d), with the
+    # same and with different operators, 2-4 operands per list
+    a, b, c, d = {"value.lt": 1}, {"value.gt": -5}, {"value.dtype.eq": "int"}, {"value.in": [1, 2]}
+    for op in ("and", "or", "xor"):
+        for op2 in ("and", "or", "xor"):
+            out.append({op: [{op2: [dict(a), dict(b)]}, dict(c)]})
+            out.append({op: [dict(a), {op2: [dict(b), dict(c)]}]})
+            out.append({op: [{op2: [dict(a), dict(b)]}, {op2: [dict(c), dict(d)]}]})
+            out.append({op: [{op2: [{op: [dict(a), dict(b)]}, dict(c)]}, dict(d)]})
+        out.append({op: [{op: [dict(a), dict(b), dict(c)]}, dict(d), dict(a)]})
+        out.append({op: [{op: []}, dict(a)]})
     return out
 
 
